@@ -31,6 +31,18 @@ if sys.version > '3': long = int
 __all__ = []
 options = {}
 
+# Verification hook (inactive unless the environment variable CVXOPT_VERIF=1
+# is set at import time): reports per-iteration stopping statistics and
+# line-search decisions to the callable cvxopt._verif_sink, if installed.
+import os as _os
+if _os.environ.get('CVXOPT_VERIF') == '1':
+    def _verif_emit(ev, **fields):
+        import cvxopt
+        sink = getattr(cvxopt, '_verif_sink', None)
+        if sink is not None: sink(ev, fields)
+else:
+    _verif_emit = None
+
 
 def cpl(c, F, G = None, h = None, dims = None, A = None, b = None, 
     kktsolver = None, xnewcopy = None, xdot = None, xaxpy = None,
@@ -721,6 +733,13 @@ def cpl(c, F, G = None, h = None, dims = None, A = None, b = None,
         pres = pres / pres0
         dres = dres / dres0
 
+        if _verif_emit:
+            _verif_emit('cpl.iter', iters = iters, pres = pres, dres = dres,
+                gap = gap, relgap = relgap, pcost = pcost, dcost = dcost,
+                maxiters = MAXITERS, abstol = ABSTOL, reltol = RELTOL,
+                feastol = FEASTOL, refinement = refinement,
+                relaxed_iters = relaxed_iters)
+
         if show_progress:
             print("%2d: % 8.4e % 8.4e % 4.0e% 7.0e% 7.0e" \
                 %(iters, pcost, dcost, gap, pres, dres))
@@ -1259,6 +1278,10 @@ def cpl(c, F, G = None, h = None, dims = None, A = None, b = None,
                             dsdz = dsdz0
                             sigma, eta = sigma0, eta0
                             relaxed_iters = -1
+
+            if _verif_emit:
+                _verif_emit('cpl.ls', iters = iters, i = i, step = step,
+                    relaxed_iters = relaxed_iters)
 
 
         # Update x, y.
